@@ -15,9 +15,9 @@ Mirrored code (file → function):
   dense_linear_operator.py            __add__, _transpose_nonbatch
   diag_linear_operator.py             Diag.__add__/_mul_constant/_mul_matrix/add_diagonal/matmul,
                                       ConstantDiag.__add__/_mul_constant/_mul_matrix/matmul
-  identity_linear_operator.py         _mul_constant, _mul_matrix (returns `other` — defect, see `cfg.identityMulFixed`), matmul
-  zero_linear_operator.py             __add__, mul (python scalars: defect D04), div, matmul, add_diagonal, transpose
-  triangular_linear_operator.py       __init__ (unwrapping; Diag argument: defect D02), __add__, _mul_constant, add_diagonal, _transpose_nonbatch
+  identity_linear_operator.py         _mul_constant, matmul (`_mul_matrix` is inherited from ConstantDiag since 7b74d3a)
+  zero_linear_operator.py             __add__, mul, div, matmul, add_diagonal, transpose
+  triangular_linear_operator.py       __init__ (unwrapping), __add__, _mul_constant, add_diagonal, _transpose_nonbatch
   root_/low_rank_root_/chol_          Root._mul_constant (positive constants folded into the root), LowRankRoot.__add__/add_diagonal
   kronecker_product_linear_operator   Kronecker.__add__/add_diagonal, KroneckerProductDiag._mul_constant (MRO: Diag first)
   kronecker_product_added_diag_       __add__
@@ -68,15 +68,7 @@ inductive Op (α : Type) where
 inductive Err where
   | notSupported     -- the library raises an explicit "not supported / invalid" error
   | shape            -- explicit shape error
-  | internal (d : Nat)  -- a defect of the unchanged tree, modelled as it is (2 = D02, 4 = D04)
   deriving DecidableEq, Repr
-
-/-- Behaviour switches for defects with a proposed fix. -/
-structure Cfg where
-  /-- `IdentityLinearOperator._mul_matrix` returns `other` (false, the code) or `Diag(other._diagonal())` (true, the fix). -/
-  identityMulFixed : Bool := false
-  /-- `ZeroLinearOperator.mul(python scalar)` raises AttributeError (false, D04) or returns Zero (true). -/
-  zeroMulFixed : Bool := false
 
 namespace Op
 variable {α : Type}
@@ -89,7 +81,7 @@ mutual
     | kron a b => a.rows * b.rows | kronTri a b => a.rows * b.rows | kronDiag a b => a.rows * b.rows
     | addedDiag a _ => a.rows | kronAddedDiag a _ => a.rows | lrrAddedDiag a _ => a.rows
     | sum l => rowsL l | psdSum l => rowsL l | sumKron a _ => a.rows
-    | matmul a _ => a.rows | mul a _ => a.rows | constMul a _ => a.rows
+    | matmul a _ => a.rows | mul a b => min a.rows b.rows | constMul a _ => a.rows
   def rowsL : List (Op α) → Nat
     | [] => 0
     | a :: _ => a.rows
@@ -103,7 +95,8 @@ mutual
     | kron a b => a.cols * b.cols | kronTri a b => a.cols * b.cols | kronDiag a b => a.rows * b.rows
     | addedDiag a _ => a.cols | kronAddedDiag a _ => a.cols | lrrAddedDiag a _ => a.cols
     | sum l => colsL l | psdSum l => colsL l | sumKron a _ => a.cols
-    | matmul _ b => b.cols | mul a _ => a.cols | constMul a _ => a.cols
+    -- (`MulLinearOperator._check_args`: both operands have the same shape)
+    | matmul _ b => b.cols | mul a b => min a.cols b.cols | constMul a _ => a.cols
   def colsL : List (Op α) → Nat
     | [] => 0
     | a :: _ => a.cols
@@ -154,7 +147,8 @@ mutual
     | sum l => denoteL l
     | psdSum l => denoteL l
     | sumKron a b => fun i j => a.denote i j + b.denote i j
-    | matmul a b => fun i j => sumN a.cols fun k => a.denote i k * b.denote k j
+    -- (inner dimension: `a.cols = b.rows` for every object `matmul()` builds)
+    | matmul a b => fun i j => sumN (min a.cols b.rows) fun k => a.denote i k * b.denote k j
     | mul a b => fun i j => a.denote i j * b.denote i j
     | constMul a c => fun i j => c * a.denote i j
   def denoteL : List (Op α) → NMat α
@@ -227,12 +221,12 @@ variable {α : Type} [Zero α] [One α] [Add α] [Mul α] [Neg α]
 
 /-! ### constructors with checks -/
 
-/-- `TriangularLinearOperator.__init__`: a Triangular argument is unwrapped; a Diag argument (which is
-a TriangularLinearOperator without `_tensor`) raises AttributeError (defect D02). -/
-def mkTri (up : Bool) (t : Op α) : Except Err (Op α) :=
+/-- `TriangularLinearOperator.__init__`: a Triangular argument (one that has `_tensor`) is unwrapped; anything
+else — including a DiagLinearOperator, which is a TriangularLinearOperator without `_tensor` — is wrapped. -/
+def mkTri (up : Bool) (t : Op α) : Op α :=
   match t with
-  | .tri _ t' => .ok (.tri up t')
-  | t => if t.isDiag then .error (.internal 2) else .ok (.tri up t)
+  | .tri _ t' => .tri up t'
+  | t => .tri up t
 
 inductive ADCls | plain | kron | lrr
   deriving DecidableEq
@@ -278,7 +272,9 @@ mutual
     | .psdSum l => .psdSum (transposeL l)
     | .sumKron a b => .sumKron (transposeOp a) (transposeOp b)
     | .matmul a b => .matmul (transposeOp b) (transposeOp a)
-    | .mul a b => .mul a b
+    -- `MulLinearOperator._transpose_nonbatch` returns self; its operands are RootLinearOperators, whose
+    -- transpose is themselves, so this is the same object
+    | .mul a b => .mul (transposeOp a) (transposeOp b)
     | .constMul a c => .constMul (transposeOp a) c
   def transposeL : List (Op α) → List (Op α)
     | [] => []
@@ -314,7 +310,7 @@ def diagAddDiagonal (a : Op α) (g : DiagArg α) : Except Err (Op α) :=
 
 def addDiagonal : Op α → DiagArg α → Except Err (Op α)
   | .zero n m, g => if n = m then .ok (.diag n g.fn) else .error .notSupported
-  | .tri up t, g => do let r ← addDiagonal t g; mkTri up r
+  | .tri up t, g => do let r ← addDiagonal t g; pure (mkTri up r)
   | .addedDiag a d, g => do let d' ← diagAddDiagonal d g; mkAddedDiag .plain a d'
   | .kronAddedDiag a d, g => do let d' ← diagAddDiagonal d g; mkAddedDiag .kron a d'
   | .lrrAddedDiag a d, g => do let d' ← diagAddDiagonal d g; mkAddedDiag .lrr a d'
@@ -374,10 +370,10 @@ def add : Op α → Op α → Except Err (Op α)
   | .tri up t, b =>
     if b.isDiag then do
       let inner ← mkAddedDiag .plain t b
-      mkTri up inner
+      pure (mkTri up inner)
     else match b with
       | .tri up' t' =>
-        if up = up' then do let s ← add t t'; mkTri up s
+        if up = up' then do let s ← add t t'; pure (mkTri up s)
         else add t (.tri up' t')
       | b => add t b
   | .lowRankRoot r, b =>
@@ -440,49 +436,51 @@ mutual
     | a :: l, c => mulConst S a c :: mulConstL S l c
 end
 
-/-- how the scalar reaches `mul`: a python number or a tensor (only `ZeroLinearOperator.mul` cares). -/
-inductive ScalarKind | pyNumber | tensor
-  deriving DecidableEq
-
-/-- public `mul(scalar)`: `ZeroLinearOperator.mul` reads `other.shape` (python number: defect D04). -/
-def mulScalar (cfg : Cfg) (S : ScalarOps α) (k : ScalarKind) (a : Op α) (c : α) : Except Err (Op α) :=
+/-- public `mul(scalar)` (python numbers are tensorised first): `ZeroLinearOperator.mul` returns a Zero of the
+broadcast shape, every other class goes to its `_mul_constant`. -/
+def mulScalar (S : ScalarOps α) (a : Op α) (c : α) : Op α :=
   match a with
-  | .zero n m => if k = .pyNumber && !cfg.zeroMulFixed then .error (.internal 4) else .ok (.zero n m)
-  | a => .ok (mulConst S a c)
+  | .zero n m => .zero n m
+  | a => mulConst S a c
 
-/-- `div(scalar)` = `mul(1/scalar)` (`inv` supplies the reciprocal); `ZeroLinearOperator.div` returns self. -/
-def divScalar (cfg : Cfg) (S : ScalarOps α) (a : Op α) (cinv : α) : Except Err (Op α) :=
+/-- `div(scalar)` = `mul(1/scalar)` (`cinv` is the reciprocal); `ZeroLinearOperator.div` returns self. -/
+def divScalar (S : ScalarOps α) (a : Op α) (cinv : α) : Op α :=
   match a with
-  | .zero n m => .ok (.zero n m)
-  | a => mulScalar cfg S .tensor a cinv
+  | .zero n m => .zero n m
+  | a => mulScalar S a cinv
 
-/-- `__sub__`: `self + other.mul(-1)` (python `-1`). -/
-def sub (cfg : Cfg) (S : ScalarOps α) (a b : Op α) : Except Err (Op α) := do
-  let nb ← mulScalar cfg S .pyNumber b (-1)
-  add a nb
+/-- `__sub__`: `self + other.mul(-1)`. -/
+def sub (S : ScalarOps α) (a b : Op α) : Except Err (Op α) :=
+  add a (mulScalar S b (-1))
 
 /-! ### elementwise product of two operators (`mul` → `_mul_matrix`) -/
 
 /-- `a.mul(b)` for an operator `b`.  The base class builds a MulLinearOperator from root
-decompositions (`rootDec` is that numerical primitive: it must return a root-form operator). -/
-def mulMatrix (cfg : Cfg) (rootDec : Op α → Op α) (a b : Op α) : Except Err (Op α) :=
+decompositions (`rootDec` is that numerical primitive: it must return a root-form operator).
+Identity has no override any more: it takes the ConstantDiag / Diag branches. -/
+def mulMatrix (rootDec : Op α → Op α) (a b : Op α) : Except Err (Op α) :=
   match a with
   | .zero n m => .ok (.zero n m)
   | a =>
     if b.isZero then .ok b
-    else match a with
-    | .identity n =>
-      if cfg.identityMulFixed then .ok (.diag n fun i => b.denote i i) else .ok b
-    | a =>
-      if a.isConstDiag && b.isConstDiag then
-        if a.rows = b.rows then .ok (.constDiag a.rows (a.diagOf 0 * b.diagOf 0)) else .error .shape
-      else if a.isDiag then .ok (.diag a.rows fun i => a.diagOf i * b.denote i i)
-      else if a.isDense || b.isDense then
-        .ok (.dense a.rows a.cols fun i j => a.denote i j * b.denote i j)
-      else
-        let ra := if a.isRoot then a else rootDec a
-        let rb := if b.isRoot then b else rootDec b
-        .ok (mkMul ra rb)
+    else if a.isConstDiag && b.isConstDiag then
+      if a.rows = b.rows then .ok (.constDiag a.rows (a.diagOf 0 * b.diagOf 0)) else .error .shape
+    else if a.isDiag then .ok (.diag a.rows fun i => a.diagOf i * b.denote i i)
+    else if a.isDense || b.isDense then
+      .ok (.dense a.rows a.cols fun i j => a.denote i j * b.denote i j)
+    else
+      let ra := if a.isRoot then a else rootDec a
+      let rb := if b.isRoot then b else rootDec b
+      .ok (mkMul ra rb)
+
+/-! Formulas of the code BEFORE the `fix:` commits 63d7878 / 7b74d3a, kept only for the named
+`old_code_*` counterexamples in the property file. -/
+
+/-- old `IdentityLinearOperator._mul_matrix`: `return other`. -/
+def oldIdentityMulMatrix (_n : Nat) (b : Op α) : Op α := b
+
+/-- old `ZeroLinearOperator.mul(python number)`: AttributeError (`none`). -/
+def oldZeroMulPyNumber (_n _m : Nat) : Option (Op α) := none
 
 /-! ### `matmul` with an operator on the right -/
 
@@ -509,7 +507,7 @@ inductive Prog (α : Type) where
   | leaf (o : Op α)
   | add (p q : Prog α)
   | sub (p q : Prog α)
-  | mulC (k : ScalarKind) (c : α) (p : Prog α)
+  | mulC (c : α) (p : Prog α)
   | divC (c cinv : α) (p : Prog α)       -- `cinv` is `1/c`
   | mulM (p q : Prog α)
   | matmul (k : Nat) (p q : Prog α)       -- inner dimension `k`
@@ -520,11 +518,11 @@ inductive Prog (α : Type) where
 namespace Prog
 mutual
   def rows : Prog α → Nat
-    | leaf o => o.rows | add p _ => p.rows | sub p _ => p.rows | mulC _ _ p => p.rows | divC _ _ p => p.rows
+    | leaf o => o.rows | add p _ => p.rows | sub p _ => p.rows | mulC _ p => p.rows | divC _ _ p => p.rows
     | mulM p _ => p.rows | matmul _ p _ => p.rows | addDiag _ p => p.rows | jitter _ p => p.rows
     | transpose p => p.cols
   def cols : Prog α → Nat
-    | leaf o => o.cols | add p _ => p.cols | sub p _ => p.cols | mulC _ _ p => p.cols | divC _ _ p => p.cols
+    | leaf o => o.cols | add p _ => p.cols | sub p _ => p.cols | mulC _ p => p.cols | divC _ _ p => p.cols
     | mulM p _ => p.cols | matmul _ _ q => q.cols | addDiag _ p => p.cols | jitter _ p => p.cols
     | transpose p => p.rows
 end
@@ -535,7 +533,7 @@ def Spec.eval : Prog α → NMat α
   | .leaf o => o.denote
   | .add p q => fun i j => Spec.eval p i j + Spec.eval q i j
   | .sub p q => fun i j => Spec.eval p i j + Spec.eval q i j * (-1)
-  | .mulC _ c p => fun i j => Spec.eval p i j * c
+  | .mulC c p => fun i j => Spec.eval p i j * c
   | .divC _ cinv p => fun i j => Spec.eval p i j * cinv
   | .mulM p q => fun i j => Spec.eval p i j * Spec.eval q i j
   | .matmul k p q => fun i j => sumN k fun l => Spec.eval p i l * Spec.eval q l j
@@ -544,7 +542,6 @@ def Spec.eval : Prog α → NMat α
   | .transpose p => fun i j => Spec.eval p j i
 
 structure Env (α : Type) where
-  cfg : Cfg
   S : ScalarOps α
   rootDec : Op α → Op α
 
@@ -552,24 +549,33 @@ structure Env (α : Type) where
 def checkShape (n m : Nat) (r : Op α) : Except Err (Op α) :=
   if r.rows = n ∧ r.cols = m then .ok r else .error .shape
 
-/-- The library's evaluation of a program: every step goes through the dispatch above. -/
+def sameShape (a b : Op α) : Bool := a.rows == b.rows && a.cols == b.cols
+
+/-- The library's evaluation of a program: every step goes through the dispatch above.  Binary elementwise
+steps require equal matrix shapes (`torch.broadcast_shapes` on the matrix dims), `matmul` the inner dimension. -/
 def Impl.eval (E : Env α) : Prog α → Except Err (Op α)
   | .leaf o => .ok o
   | .add p q => do
     let a ← Impl.eval E p; let b ← Impl.eval E q
-    let r ← add a b; checkShape a.rows a.cols r
+    if sameShape a b then
+      let r ← add a b; checkShape a.rows a.cols r
+    else .error .shape
   | .sub p q => do
     let a ← Impl.eval E p; let b ← Impl.eval E q
-    let r ← sub E.cfg E.S a b; checkShape a.rows a.cols r
-  | .mulC k c p => do
+    if sameShape a b then
+      let r ← sub E.S a b; checkShape a.rows a.cols r
+    else .error .shape
+  | .mulC c p => do
     let a ← Impl.eval E p
-    let r ← mulScalar E.cfg E.S k a c; checkShape a.rows a.cols r
+    checkShape a.rows a.cols (mulScalar E.S a c)
   | .divC _ cinv p => do
     let a ← Impl.eval E p
-    let r ← divScalar E.cfg E.S a cinv; checkShape a.rows a.cols r
+    checkShape a.rows a.cols (divScalar E.S a cinv)
   | .mulM p q => do
     let a ← Impl.eval E p; let b ← Impl.eval E q
-    let r ← mulMatrix E.cfg E.rootDec a b; checkShape a.rows a.cols r
+    if sameShape a b then
+      let r ← mulMatrix E.rootDec a b; checkShape a.rows a.cols r
+    else .error .shape
   | .matmul k p q => do
     let a ← Impl.eval E p; let b ← Impl.eval E q
     if a.cols = k ∧ b.rows = k then
